@@ -309,3 +309,11 @@ package encoder
 //@   ensures e == nil ==> (len(context.codewords) == old(len(context.codewords)) + 1) == !((rem == 1 || rem == 0) && context.symbolInfo.dataCapacity - old(len(context.codewords)) == rem)
 //@   ensures e == nil ==> len(context.codewords) == old(len(context.codewords)) || (len(context.codewords) == old(len(context.codewords)) + 1 && int(context.codewords[len(context.codewords) - 1]) == 254)
 //@   ensures e == nil ==> context.newEncoding >= 0
+
+// C40 / Text / X12 triplets (5.2.5.2): three values are packed into two codewords as 1600*c1 + 40*c2 + c3 + 1 (high byte first)
+//@ func c40EncodeToCodewords(sb []byte) (r []byte)
+//@   property C02
+//@   requires len(sb) >= 3 && int(sb[0]) < 40 && int(sb[1]) < 40 && int(sb[2]) < 40
+//@   let v = 1600 * int(sb[0]) + 40 * int(sb[1]) + int(sb[2]) + 1
+//@   ensures len(r) == 2 && fresh(r) && int(r[0]) == v / 256 && int(r[1]) == v % 256
+//@   modifies nothing
